@@ -1,6 +1,7 @@
 package checks
 
 import (
+	"regexp"
 	"bytes"
 	"fmt"
 	"net"
@@ -46,9 +47,30 @@ type syncBuf struct {
 func (s *syncBuf) Write(p []byte) (int, error) { s.mu.Lock(); defer s.mu.Unlock(); return s.b.Write(p) }
 func (s *syncBuf) String() string              { s.mu.Lock(); defer s.mu.Unlock(); return s.b.String() }
 
-// freePort picks a listening port for a child process. It stays below the kernel's ephemeral range (32768..60999
-// here): a port from that range can be taken by any outgoing connection between the moment the harness releases it
-// and the moment the child binds it, which on a busy machine happens ("bind: address already in use").
+// Child processes are started with --bind 127.0.0.1:0: the kernel picks a free port atomically and the harness reads
+// it from the child's own "proxy is listening" log line. (Choosing a port in the harness and handing it to the child
+// is racy on a busy machine: somebody else can take the port in between, and - worse - the harness may then find
+// *another* test's proxy answering on it.)
+var listenRe = regexp.MustCompile(`"msg":"proxy is listening","address":"([^"]+)"`)
+
+func listenAddr(out *syncBuf, exited func() bool, d time.Duration) string {
+	deadline := time.Now().Add(d)
+	for {
+		if m := listenRe.FindStringSubmatch(out.String()); m != nil {
+			return m[1]
+		}
+		if exited() || time.Now().After(deadline) {
+			if m := listenRe.FindStringSubmatch(out.String()); m != nil {
+				return m[1]
+			}
+			return ""
+		}
+		time.Sleep(2 * time.Millisecond)
+	}
+}
+
+// freePort is only used for the HTTP health-check listener of the readiness sub-check of C16 (whose address the
+// binary does not log); it stays below the kernel's ephemeral range so that outgoing connections cannot take it.
 var portCounter atomic.Int64
 
 func freePort() int {
@@ -78,8 +100,7 @@ func startBinary(args []string, env []string, yaml string) (*proc, error) {
 		return nil, fmt.Errorf("VERIF_BIN is not set (run through /verif/run)")
 	}
 	p := &proc{out: &syncBuf{}, done: make(chan struct{})}
-	p.bind = fmt.Sprintf("127.0.0.1:%d", freePort())
-	args = append([]string{"--bind", p.bind}, args...)
+	args = append([]string{"--bind", "127.0.0.1:0"}, args...)
 	if yaml != "" {
 		d, err := os.MkdirTemp("", "verif-c20-")
 		if err != nil {
@@ -132,6 +153,14 @@ func (p *proc) kill() {
 // "serving", "exited" or "timeout".
 func (p *proc) waitServing(d time.Duration) string {
 	deadline := time.Now().Add(d)
+	if p.bind == "" {
+		if p.bind = listenAddr(p.out, p.exited, d); p.bind == "" {
+			if p.exited() {
+				return "exited"
+			}
+			return "timeout"
+		}
+	}
 	for time.Now().Before(deadline) {
 		if p.exited() {
 			return "exited"
@@ -344,12 +373,17 @@ func c20Check(c c20Case) *evid.Fail {
 			f, _ := wire.Msg(primitive.ProtocolVersion4, false, int16(100+lvl), &message.Query{Query: "INSERT INTO ks1.t (k) VALUES ('" + tok + "')", Options: &message.QueryOptions{Consistency: primitive.ConsistencyLevel(lvl)}}, "")
 			from := cc.NumFrames()
 			_ = cc.SendFrame(f)
-			if cc.WaitStream(int16(100+lvl), from, 1, posWait) == nil {
+			rp := cc.WaitStream(int16(100+lvl), from, 1, posWait)
+			if rp == nil {
 				return evid.Failf("no-reply", "no reply to a write at consistency %d: %s", lvl, what)
 			}
 			as := cl.Attempts(tok)
 			if len(as) != 1 {
-				return evid.Failf("attempts", "write reached the backend %d times", len(as))
+				reply := "undecodable"
+				if b, err := cc.Decode(rp); err == nil {
+					reply = fmt.Sprint(b.Message)
+				}
+				return evid.Failf("attempts", "write at consistency %d reached the backend %d times; the client got %s: %s\noutput: %s", lvl, len(as), reply, what, p.tail())
 			}
 			b, err := decodeAttempt(as[0])
 			if err != nil {
@@ -463,6 +497,13 @@ func c20Gen(rt *rapid.T) c20Case {
 		d := rapid.SampledFrom([]time.Duration{-time.Second, -time.Millisecond, -1, 0, 1, time.Millisecond, time.Second}).Draw(rt, "delta")
 		c.Opts = []c20Opt{{"heartbeat-interval", h.String(), c20Channel(rt, "heartbeat-interval", true)}, {"idle-timeout", (h + d).String(), c20Channel(rt, "idle-timeout", true)}}
 		if d > 0 {
+			if h < 30*time.Second {
+				// valid, but an idle timeout a hair above a one-second heartbeat interval makes the proxy drop and
+				// replace its backend connections every second; the observations below need a quiet proxy, so the
+				// accepted side uses intervals that do not elapse during the case
+				h = 30 * time.Second
+				c.Opts = []c20Opt{{"heartbeat-interval", h.String(), c.Opts[0].Channel}, {"idle-timeout", (h + d).String(), c.Opts[1].Channel}}
+			}
 			c.Expect, c.Why, c.WantVersion = "serve", "heartbeat-below-idle", 4
 		} else {
 			c.Expect, c.Why = "refuse", "heartbeat-not-below-idle"
